@@ -148,9 +148,7 @@ func catalogueFor(variant string, v6 bool) []replyForm {
 	nopra := []byte{1, 1, 1, 1, 148, 4, 0, 0}          // NOPs + router alert
 	addTE := func(kind string, code byte) {
 		for _, q := range []quoteStyle{quote28, quoteFull, quote4884} {
-			if v6 && q == quote4884 {
-				continue
-			}
+
 			qn := map[quoteStyle]string{quote28: "q28", quoteFull: "qfull", quote4884: "q4884"}[q]
 			base := replyForm{Name: kind + "/" + qn, Kind: kind, Quote: q, Code: code, QTTL: -1, QTOS: -1, QCksum: -1}
 			fs = append(fs, base)
@@ -333,11 +331,24 @@ func (f replyForm) encode(fl flowInfo, probe []byte, from netip.Addr, ttl int, s
 		if f.Quote == quote28 && len(q) > 48 {
 			q = q[:48]
 		}
+		var rest6 [4]byte
+		if f.Quote == quote4884 {
+			// RFC 4884 for ICMPv6: the quote is padded to 128 bytes, its length in 64-bit words goes into
+			// the first byte after the checksum, an extension structure (MPLS label stack) follows
+			for len(q) < 128 {
+				q = append(q, 0)
+			}
+			q = q[:128]
+			rest6[0] = 16
+			ext := []byte{0x20, 0, 0, 0, 0, 8, 1, 1, 0x00, 0x3e, 0x81, 0x01}
+			binary.BigEndian.PutUint16(ext[2:], csumFold(csumAdd(0, ext)))
+			q = append(q, ext...)
+		}
 		typ := byte(3)
 		if f.Kind == "du" {
 			typ = 1
 		}
-		return ip6Behind(f.OuterHBH, from, fl.Local, 60, icmp6Msg(from, fl.Local, typ, f.Code, [4]byte{}, q))
+		return ip6Behind(f.OuterHBH, from, fl.Local, 60, icmp6Msg(from, fl.Local, typ, f.Code, rest6, q))
 	case "echo":
 		if !fl.V6 {
 			ihl := int(probe[0]&0xf) * 4
